@@ -366,21 +366,26 @@ def check_gcl(ctx, N_list):
 EVAL_HDR = """From Coq Require Import Reals Lra List Arith.
 From Interval Require Import Tactic.
 From WG Require Import Lib.NumpySem Lib.Moments.
-From GenC13 Require Import MomentsGen.
+From GenC13 Require Import MomentsGen Props_C13.
+Import ListNotations.
 Local Open Scope R_scope.
 Definition s00 := mk_gst 0 0 (fun _ => 0) (fun _ => 0) (fun _ => 0) (fun _ => 0)
                          (fun _ => 0) (fun _ => 0).
-Definition s1 := %s.
+Definition s1 := fold_left gstep [%s] (grid_init %s %s s00).
 Definition f (x y : R) : R := %s + %s * x + %s * y + %s * x * y.
+(* the state is peeled with the proved invariant, not by unfolding nested updates *)
+Lemma HT : s_momentumFalloffT s1 = %s. Proof. reflexivity. Qed.
+Lemma Hc : cache_current s1.
+Proof. exact (proj1 (jacobians_current_after_any_history _ _ s00 _)). Qed.
+Lemma Epz r : s_pzValues s1 r = pz_of %s r. Proof. rewrite <- HT. apply Hc. Qed.
+Lemma Epp r : s_ppValues s1 r = pp_of %s r. Proof. rewrite <- HT. apply Hc. Qed.
+Lemma Edz r : s_dpzdrz s1 r = dpz_of %s r. Proof. rewrite <- HT. apply Hc. Qed.
+Lemma Edp r : s_dppdrp s1 r = dpp_of %s r. Proof. rewrite <- HT. apply Hc. Qed.
 Ltac ev :=
   unfold gd_moment_Delta00, gd_moment_Delta02, gd_moment_Delta20, gd_moment_Delta11, sumf;
   cbn [sumn rz_lo rz_hi rp_lo rp_hi Nat.sub Nat.add Nat.eqb];
-  unfold s1, changeMomentumFalloffScale, changePositionFalloffScale, grid_init,
-         cacheCoordinates;
-  cbn [s_pzValues s_ppValues s_dpzdrz s_dppdrp s_momentumFalloffT s_positionFalloff
-       set_s_momentumFalloffT set_s_positionFalloff set_s_xiValues set_s_pzValues
-       set_s_ppValues set_s_dxidchi set_s_dpzdrz set_s_dppdrp];
-  unfold g_decompactify, g_compactificationDerivatives;
+  rewrite ?Epz, ?Epp, ?Edz, ?Edp;
+  unfold pz_of, pp_of, dpz_of, dpp_of, g_decompactify, g_compactificationDerivatives;
   cbn [fst snd g_momentumFalloffT g_positionFalloff];
   unfold w_Delta00, w_Delta02, w_Delta20, w_Delta11, intNodeWeight_pz, intNodeWeight_pp,
          rzNode, rpNode, f, atanh_R;
@@ -402,14 +407,15 @@ def eval_case(ctx, idx, N, ops, coeffs, fieldval):
         temperatureProfile=100 * np.ones(M + 1))
     L0, T0 = ops[0][1], ops[0][2]
     grid = WallGo.grid.Grid(M, N, float(L0), float(T0))
-    term = "(grid_init %s %s s00)" % (pyrx.rlit(L0), pyrx.rlit(T0))
+    terms, Tcur = [], T0
     for op in ops[1:]:
         if op[0] == "momentum":
             grid.changeMomentumFalloffScale(float(op[1]))
-            term = "(changeMomentumFalloffScale %s %s)" % (pyrx.rlit(op[1]), term)
+            terms.append("OpMomentum %s" % pyrx.rlit(op[1]))
+            Tcur = op[1]
         else:
             grid.changePositionFalloffScale(float(op[1]))
-            term = "(changePositionFalloffScale %s %s)" % (pyrx.rlit(op[1]), term)
+            terms.append("OpPosition %s" % pyrx.rlit(op[1]))
     solver = make_solver(grid, particles, bg, "Cardinal", "Cardinal")
     _, rz, rp = grid.getCompactCoordinates()
     a, b, c, d = [float(x) for x in coeffs]
@@ -426,7 +432,9 @@ def eval_case(ctx, idx, N, ops, coeffs, fieldval):
         goals.append("Goal Rabs (gd_moment_%s s1 %d %s f - %s) <= %s.\nProof. ev. Qed." % (
             name, N, pyrx.rlit(msq), pyrx.rlit(q), pyrx.rlit(tol)))
         rows.append((name, y))
-    text = EVAL_HDR % (term, *[pyrx.rlit(Fraction(x)) for x in coeffs]) + "\n".join(goals) + "\n"
+    text = EVAL_HDR % ("; ".join(terms), pyrx.rlit(L0), pyrx.rlit(T0),
+                       *[pyrx.rlit(Fraction(x)) for x in coeffs],
+                       *([pyrx.rlit(Tcur)] * 5)) + "\n".join(goals) + "\n"
     path = ctx.write("Cases/Eval_%d.v" % idx, text)
     return path, dict(N=N, ops=[list(map(str, o)) for o in ops],
                       coeffs=[str(c) for c in coeffs], msq=str(msq), values=rows)
@@ -538,7 +546,7 @@ def run(ctx):
                     "Interval tactic (certified evaluation)"]
     # ---- correspondence (certified evaluation), started in the background -------------
     procs = []
-    if gen_ok and (proved or True):
+    if proved:
         try:
             rng = ctx.rng
             specs = [(3, [("init", Fraction(1), Fraction(100))], 2.0),
